@@ -60,6 +60,30 @@ def check_bez(case):
             dis.append({"clause": "Tightness", "detail": "%s of %r: max %r on axis %d is above every point of the curve (<= %r)" % (name, seg, mx, axis, hi2 / D), "form": name})
         if not (bb[0] <= bb[2] and bb[1] <= bb[3]):
             dis.append({"clause": "Order", "detail": "%s of %r: %r" % (name, seg, bb)})
+    # the same quadratic written as a cubic (degree elevation) at coordinates of 1e4, its end nudged so that the cubic
+    # coefficient is tiny but not zero: the box still contains every sampled point of the curve (comparator: 1001 samples)
+    if n == 3:
+        S = 1.0e4
+        q = [svg.Point(p.x * S / U, p.y * S / U) for p in pts]
+        for delta in (1.0017e-8, 3e-8, 1e-6, -1.0017e-8):
+            c1 = svg.Point(q[0].x + 2.0 * (q[1].x - q[0].x) / 3.0, q[0].y + 2.0 * (q[1].y - q[0].y) / 3.0)
+            c2 = svg.Point(q[2].x + 2.0 * (q[1].x - q[2].x) / 3.0, q[2].y + 2.0 * (q[1].y - q[2].y) / 3.0)
+            e = svg.Point(q[2].x + (delta if axis == 1 else 0.0), q[2].y + (0.0 if axis == 1 else delta))
+            cub = svg.CubicBezier(q[0], c1, c2, e)
+            try:
+                bb = cub.bbox()
+            except engine.CaseTimeout:
+                raise
+            except Exception as ex:
+                dis.append({"clause": "Raises", "detail": "bbox of near-quadratic cubic %r raised %s" % (cub, type(ex).__name__)})
+                continue
+            vals = [(cub.point(i / 1000.0).x if axis == 1 else cub.point(i / 1000.0).y) for i in range(1001)]
+            mn, mx = (bb[0], bb[2]) if axis == 1 else (bb[1], bb[3])
+            size = max(1.0, max(abs(v) for v in vals))
+            if mn > min(vals) + 1e-9 * size or mx < max(vals) - 1e-9 * size:
+                dis.append({"clause": "Containment", "form": "near-quadratic cubic", "detail": "bbox of %r on axis %d is [%r, %r], the curve reaches [%r, %r]" % (cub, axis, mn, mx, min(vals), max(vals))})
+            elif mn < min(vals) - 1e-6 * size or mx > max(vals) + 1e-6 * size:
+                dis.append({"clause": "Tightness", "form": "near-quadratic cubic", "detail": "bbox of %r on axis %d is [%r, %r], the curve stays within [%r, %r]" % (cub, axis, mn, mx, min(vals), max(vals))})
     # a zero-length closed sub-path (M x,y Z; a polygon of one point) has a position: its box is that point
     p0 = pts[0]
     for name, fn in (("Path(M, Z).bbox()", lambda: svg.Path(svg.Move(None, svg.Point(p0)), svg.Close(svg.Point(p0), svg.Point(p0))).bbox()),
